@@ -673,6 +673,17 @@ func init() {
 					c.Violation("jd a b | jd -p on a does not reproduce b", map[string]any{"diff": res.Stdout, "patched": res2.Stdout})
 					return
 				}
+				if i%4 == 0 {
+					// the diff written with -o while standard output is a character device is the same carrier
+					os.Remove(filepath.Join(c.WorkDir, "o.diff"))
+					RunCLIDevNull(c, bin, append(append([]string{"-o", "o.diff"}, flags...), "a.json", "b.json"), "", nil)
+					od, _ := os.ReadFile(filepath.Join(c.WorkDir, "o.diff"))
+					c.Feature("cli_-o_with_stdout_on_dev_null")
+					if string(od) != res.Stdout {
+						c.Violation(bin.Name+" -o FILE with standard output on /dev/null writes a different diff text than it prints on a pipe", map[string]any{"file": string(od), "pipe": res.Stdout})
+						return
+					}
+				}
 			}
 			if aText != bText {
 				c.Nontrivial(joinKey("cli", aText, bText, o.Name))
